@@ -803,15 +803,6 @@ struct WorldT : PolicyOps {
     static inline unsigned char* decoded_block = nullptr;
     static inline std::size_t decoded_size = 0;
 
-    struct DecodeData {
-        struct {
-            std::uint16_t* slots;
-            std::uint16_t* vtbls;
-        } encoded;
-        std::uintptr_t* vtbls;
-        std::uintptr_t* dtbls;
-    };
-
     DecodeOut decode(const std::string& text, const Event& ev) override {
         DecodeOut out;
         EmittedData em;
@@ -824,26 +815,9 @@ struct WorldT : PolicyOps {
         out.nvtbls = em.nvtbls;
         out.ndecoded = em.ndecoded;
         out.ndtbls = em.ndtbls;
-        const std::size_t enc_bytes =
-            2 * (em.headroom + em.nslots + em.nvtbls);
-        std::size_t usize = std::max(enc_bytes, 8 * em.ndecoded);
-        usize = (usize + 7) / 8 * 8;
         std::free(decoded_block);
-        decoded_size = usize + 8 * em.ndtbls;
-        decoded_block = (unsigned char*)std::calloc(
-            1, decoded_size ? decoded_size : 1);
-        DecodeData d;
-        auto enc = reinterpret_cast<std::uint16_t*>(decoded_block);
-        d.encoded.slots = enc + em.headroom;
-        d.encoded.vtbls = enc + em.headroom + em.nslots;
-        d.vtbls = reinterpret_cast<std::uintptr_t*>(decoded_block);
-        d.dtbls = reinterpret_cast<std::uintptr_t*>(decoded_block + usize);
-        for (std::size_t i = 0; i < em.slots.size(); ++i)
-            d.encoded.slots[i] = em.slots[i];
-        for (std::size_t i = 0; i < em.vtbls.size(); ++i)
-            d.encoded.vtbls[i] = em.vtbls[i];
-        for (std::size_t i = 0; i < em.dtbls.size(); ++i)
-            d.dtbls[i] = em.dtbls[i];
+        DecodeView d;
+        decoded_block = layout_emitted(em, d, decoded_size);
         g.hash_seed = ev.hash_seed;
         g.hash_budget = ev.hash_budget;
         guarded(out.err, [&] {
